@@ -51,7 +51,12 @@ def schema_attr(lib, I, o, cls, name, fr, node):
 
         def attr(I2, nm, fr2, n2):
             if nm == "get":
-                return Builtin("context.get", lambda I3, a, k: (I3.read_field(o, "ctx_protocol", None) if a[0] == "protocol" else (a[1] if len(a) > 1 else None)))
+                def ctx_get(I3, a, k):
+                    if a[0] != "protocol":
+                        # the modelled context holds the protocol only: any other key is state this model does not track
+                        raise Unsupported(f"schema context key {a[0]!r}")
+                    return I3.read_field(o, "ctx_protocol", None)
+                return Builtin("context.get", ctx_get)
             return MISSING
         ctx.setitem, ctx.getitem, ctx.attr = setitem, getitem, attr
         return ctx
